@@ -88,12 +88,12 @@ impl<R: BufRead> StreamDecryptor<R> {
             .try_into()
             .expect("chunk size is smaller");
 
-        let (info, message_key, nonce) = aead_setup_rfc9580(sym_alg, aead, chunk_size, salt, ikm);
-
         // There are n chunks, n auth tags + 1 final auth tag
         let Some(aead_tag_size) = aead.tag_size() else {
             return Err(UnsupporedAlgorithmSnafu { alg: aead }.build());
         };
+
+        let (info, message_key, nonce) = aead_setup_rfc9580(sym_alg, aead, chunk_size, salt, ikm);
 
         debug_assert_eq!(
             aead_tag_size, AEAD_TAG_SIZE,
